@@ -18,6 +18,13 @@ pub fn wr_VonMises(v: &VonMises) -> String {
 
 pub fn dispatch(op: &str, kind: &str, a: &mut Args) -> Option<String> {
     use rv::misc::LogSumExp;
+    // contributed op tables (one module per tag); each gets a fresh copy of the arguments
+    for f in crate::CONTRIB.iter() {
+        let mut b = a.clone();
+        if let Some(r) = f(op, kind, &mut b) {
+            return Some(r);
+        }
+    }
     Some(match op {
         "logsumexp" => {
             let xs = a.list(|a| a.f());
